@@ -22,6 +22,10 @@ class OnceTimedOperation(AbstractDenseTimeOnlineOperation):
         begin = self.begin
         end = self.end
 
+        # the operand repeats the last sample of its previous batch: it was already consumed
+        if sample and sample[0][0] == self.residual_start:
+            sample = sample[1:]
+
         if sample:
             # update when the residuals start in this iteration
             self.residual_start = sample[-1][0]
@@ -71,7 +75,7 @@ class OnceTimedOperation(AbstractDenseTimeOnlineOperation):
                 last = [b[0], b[2]]
                 if b[2] != prev or i == len(out) - 1:
                     sample_result.append(last)
-                if self.residual_start > b[0]:
+                if self.residual_start >= b[0]:
                     last = [self.residual_start, b[2]]
                     self.prev.append((self.residual_start, b[1], b[2]))
             else:
